@@ -214,7 +214,7 @@ def _memory_env(c, name, A, lane, init_byte, Q, min_write_delay, wport, rport, c
     return dict(G=G, cnt=cnt, acc=acc, hit=hit)
 
 
-def add_master(c, port, name, UA, lane, init_byte, h, Qw=3, Qr=3, with_last=True):
+def add_master(c, port, name, UA, lane, init_byte, h, Qw=3, Qr=3, with_last=True, shared_spec=None):
     """master in front of `port` (the DUT is the slave).  h must provide free harness signals: h.m_byte (8), h.m_en (1):
     the byte / enable this master intends for lane `lane` of the command it is currently offering.
     Free inputs expected: port.cmd.valid/we/addr/last, port.wdata.data/we (valid is constrained), port.flush."""
@@ -268,15 +268,19 @@ def add_master(c, port, name, UA, lane, init_byte, h, Qw=3, Qr=3, with_last=True
         out["wq"] = wq
         out["wtaken"] = wtaken
     # specification memory for the watched byte: writes take effect in command acceptance order
-    spec_next = lambda f: If_(And(acc(f), is_w(f), hit(f), f(h.m_en) == 1), f(h.m_byte), G(f, "spec"))
-    c.ghost(name + ".spec", 8, init_byte, spec_next)
+    # (shared_spec: name of a ghost declared by the caller when several masters write the same memory)
+    spec_now = (lambda f: f.g[shared_spec]) if shared_spec else (lambda f: G(f, "spec"))
+    out["spec_write"] = lambda f: And(acc(f), is_w(f), hit(f), f(h.m_en) == 1)
+    if not shared_spec:
+        spec_next = lambda f: If_(out["spec_write"](f), f(h.m_byte), G(f, "spec"))
+        c.ghost(name + ".spec", 8, init_byte, spec_next)
     if port.mode != "write":
         if port.rdata.ready in c.tr.allsigs:          # the crossbar never looks at rdata.ready: nothing to assume there
             c.assume(name + ".read_data_always_accepted", lambda f: f.b(port.rdata.ready))
         rret = lambda f: f.b(port.rdata.valid)
         rq = Queue(c, name + ".rq", Qr, {"hit": 1, "exp": 8},
                    push=lambda f: And(acc(f), Not(is_w(f))),
-                   push_vals=lambda f: {"hit": bv1(hit(f)), "exp": G(f, "spec")},
+                   push_vals=lambda f: {"hit": bv1(hit(f)), "exp": spec_now(f)},
                    pop=rret)
         c.assume(name + ".bounded_reads_in_flight", lambda f: Implies(
             rq.full(f), Not(And(f.b(port.cmd.valid), Not(is_w(f))))))
